@@ -1,6 +1,9 @@
 """C05 — charge/multiplicity completion: correspondence of Model/ChgMult.v with
 qcelemental.molparse.validate_and_fill_chgmult, and the property oracle on the implementation."""
+import contextlib
+import io
 import itertools
+from fractions import Fraction
 
 import numpy as np
 
@@ -10,10 +13,13 @@ from ..coqrun import cz, clist, copt, cbool
 
 PID = "C05"
 ALLOWED_AXIOMS = set()
+EXTRA_TARGETS = ["Model/ChgMultD.vo"]
 TRUSTED = [
-    "hand-written model coq/Model/ChgMult.v of chgmult.validate_and_fill_chgmult, tied by differential execution (this file)",
-    "numpy np.split/np.sum on small integer arrays, itertools.product order, CPython int arithmetic (modelled, not verified)",
-    "model covers integer zeff/charges/multiplicities only; float (fractional) charges are outside the model",
+    "hand-written models coq/Model/ChgMult.v (integer data) and coq/Model/ChgMultD.v (rational charges/electron counts x/D; "
+    "proved equal to the former at D = 1) of chgmult.validate_and_fill_chgmult, tied by differential execution (this file)",
+    "numpy np.split/np.sum on small arrays, itertools.product order, CPython int arithmetic and binary64 arithmetic on dyadic "
+    "values with exact results (modelled by Z / rationals, not verified)",
+    "non-integral multiplicities are outside the model (the code raises TypeError or ValidationError depending on the path)",
 ]
 ASSUMPTIONS = [
     "fragment_charges / fragment_multiplicities have one entry per fragment (wf_in); callers in from_arrays guarantee it",
@@ -21,17 +27,15 @@ ASSUMPTIONS = [
 
 
 def translate(ctx):
-    return None
+    from ..translate import chgmult_rules
+    return chgmult_rules.generate(ctx.repo)
 
 
-def impl_call(felez, c, fc, m, fm, zgf):
-    from qcelemental.molparse import validate_and_fill_chgmult
+def _outcome(fn):
     from qcelemental.exceptions import ValidationError
-    zeff = np.array([z for f in felez for z in f], dtype=float)
-    seps = list(itertools.accumulate(len(f) for f in felez))[:-1]
     try:
-        r = validate_and_fill_chgmult(zeff, np.array(seps, dtype=int), c, list(fc), m, list(fm),
-                                      zero_ghost_fragments=zgf, verbose=-1)
+        with contextlib.redirect_stdout(io.StringIO()):
+            r = fn()
     except ValidationError:
         return ("Err", "Validation")
     except Exception as e:  # any other exception class is itself a finding (fails_closed)
@@ -40,23 +44,165 @@ def impl_call(felez, c, fc, m, fm, zgf):
                    list(r["fragment_multiplicities"])))
 
 
+def impl_call(felez, c, fc, m, fm, zgf):
+    from qcelemental.molparse import validate_and_fill_chgmult
+    zeff = np.array([z for f in felez for z in f], dtype=float)
+    seps = list(itertools.accumulate(len(f) for f in felez))[:-1]
+    return _outcome(lambda: validate_and_fill_chgmult(zeff, np.array(seps, dtype=int), c, list(fc), m, list(fm),
+                                                      zero_ghost_fragments=zgf, verbose=-1))
+
+
+GHOST_Z = [1, 3, 7, 2]     # a ghost atom keeps its element; only real atoms contribute electrons (odd Z first)
+
+
+def _atoms(felez):
+    flat = [z for f in felez for z in f]
+    elez = [int(z) if z > 0 else GHOST_Z[k % len(GHOST_Z)] for k, z in enumerate(flat)]
+    real = [z > 0 for z in flat]
+    geom = [[0.0, 0.0, 4.0 * k] for k in range(len(flat))]
+    return flat, elez, real, geom
+
+
+def entry_ok(entry, case):
+    """can this case be expressed at this entry point? (atoms have integral non-negative Z; Molecule has no zgf switch)"""
+    felez, c, fc, m, fm, zgf = case
+    if any((z < 0 or z != int(z) or z > 36) for f in felez for z in f) or any(len(f) == 0 for f in felez):
+        return False
+    return entry == "from_arrays" or not zgf
+
+
+def impl_from_arrays(felez, c, fc, m, fm, zgf):
+    from qcelemental.molparse import from_arrays
+    flat, elez, real, geom = _atoms(felez)
+    seps = list(itertools.accumulate(len(f) for f in felez))[:-1]
+    return _outcome(lambda: from_arrays(geom=geom, elez=elez, real=real, fragment_separators=seps, molecular_charge=c,
+                                        fragment_charges=list(fc), molecular_multiplicity=m,
+                                        fragment_multiplicities=list(fm), zero_ghost_fragments=zgf, units="Bohr",
+                                        verbose=0))
+
+
+def impl_molecule(felez, c, fc, m, fm, zgf):
+    from qcelemental.models import Molecule
+    from qcelemental import periodictable
+    flat, elez, real, geom = _atoms(felez)
+    frags, k = [], 0
+    for f in felez:
+        frags.append(list(range(k, k + len(f))))
+        k += len(f)
+    kw = dict(symbols=[periodictable.to_E(z) for z in elez], geometry=geom, real=real, fragments=frags)
+    if c is not None:
+        kw["molecular_charge"] = c
+    if m is not None:
+        kw["molecular_multiplicity"] = m
+    if any(x is not None for x in fc):
+        kw["fragment_charges"] = list(fc)
+    if any(x is not None for x in fm):
+        kw["fragment_multiplicities"] = list(fm)
+
+    def build():
+        M = Molecule(**kw)
+        return {"molecular_charge": M.molecular_charge, "fragment_charges": M.fragment_charges,
+                "molecular_multiplicity": M.molecular_multiplicity, "fragment_multiplicities": M.fragment_multiplicities}
+    return _outcome(build)
+
+
+ENTRY = {"validate_and_fill_chgmult": impl_call, "from_arrays": impl_from_arrays, "Molecule": impl_molecule}
+
+
+# ---- answers and arguments are the caller's: whatever the caller does to them must not change later answers
+
+def _scramble(obj, depth=0):
+    """modify a mutable object in place (every list / ndarray / dict reachable from it)"""
+    if depth > 4:
+        return
+    if isinstance(obj, list):
+        for k in range(len(obj)):
+            v = obj[k]
+            if isinstance(v, (list, dict, np.ndarray)):
+                _scramble(v, depth + 1)
+            elif v is None:
+                obj[k] = 7
+            elif isinstance(v, (int, float, np.integer, np.floating)) and not isinstance(v, (bool, np.bool_)):
+                obj[k] = v + 1
+        obj.append(99)
+    elif isinstance(obj, np.ndarray):
+        if obj.flags.writeable and obj.size:
+            if obj.dtype.kind in "iuf":
+                obj += 1
+            elif obj.dtype.kind == "b":
+                np.logical_not(obj, out=obj)
+    elif isinstance(obj, dict):
+        for v in list(obj.values()):
+            if isinstance(v, (list, dict, np.ndarray)):
+                _scramble(v, depth + 1)
+
+
+def _raw_args(entry, case):
+    """fresh argument objects for one call: (callable taking them, dict of the mutable ones)"""
+    felez, c, fc, m, fm, zgf = case
+    seps = list(itertools.accumulate(len(f) for f in felez))[:-1]
+    if entry == "from_arrays":
+        from qcelemental.molparse import from_arrays
+        flat, elez, real, geom = _atoms(felez)
+        mut = {"geom": np.array(geom), "elez": np.array(elez), "real": np.array(real), "seps": list(seps), "fc": list(fc), "fm": list(fm)}
+        return (lambda: from_arrays(geom=mut["geom"], elez=mut["elez"], real=mut["real"], fragment_separators=mut["seps"],
+                                    molecular_charge=c, fragment_charges=mut["fc"], molecular_multiplicity=m,
+                                    fragment_multiplicities=mut["fm"], zero_ghost_fragments=zgf, units="Bohr", verbose=0)), mut
+    from qcelemental.molparse import validate_and_fill_chgmult
+    mut = {"zeff": np.array([z for f in felez for z in f], dtype=float), "seps": np.array(seps, dtype=int), "fc": list(fc), "fm": list(fm)}
+    return (lambda: validate_and_fill_chgmult(mut["zeff"], mut["seps"], c, mut["fc"], m, mut["fm"],
+                                              zero_ghost_fragments=zgf, verbose=-1)), mut
+
+
+def alias_probe(entry, case, rounds=2):
+    """call; modify the returned answer and the supplied argument objects in place; call again with fresh equal
+    arguments.  Returns the list of canonical outcomes (all must be equal)."""
+    outs = []
+    for _ in range(rounds + 1):
+        fn, mut = _raw_args(entry, case)
+        box = {}
+
+        def call():
+            box["r"] = fn()
+            return box["r"]
+        outs.append(_outcome(call))
+        if "r" in box:
+            _scramble(box["r"])
+        _scramble(mut)
+    return outs
+
+
+def run_entry(entry, case):
+    return ENTRY[entry or "validate_and_fill_chgmult"](*case)
+
+
 def _is_int(x):
     return isinstance(x, (int, np.integer)) or (isinstance(x, float) and x.is_integer())
 
 
-def case_term(case, out):
+def _scaled(x, D):
+    fr = Fraction(x) * D
+    if fr.denominator != 1:
+        raise ValueError(f"{x!r} is not a multiple of 1/{D}")
+    return int(fr)
+
+
+def case_term(case, out, D=None):
+    """Gallina term (input, expected) — or (D, input, expected) with charges and electron counts scaled by D"""
     felez, c, fc, m, fm, zgf = case
+    sc = (lambda x: _scaled(x, D)) if D else (lambda x: x)
+    czs = lambda x: cz(sc(x))
     inp = ("{| felez := %s; ic := %s; ifc := %s; im := %s; ifm := %s; zgf := %s |}" % (
-        clist(felez, lambda f: clist(f, cz)), copt(c, cz), clist(fc, lambda x: copt(x, cz)), copt(m, cz),
+        clist(felez, lambda f: clist(f, czs)), copt(c, czs), clist(fc, lambda x: copt(x, czs)), copt(m, cz),
         clist(fm, lambda x: copt(x, cz)), cbool(zgf)))
     if out[0] == "Ok":
         rc, rfc, rm, rfm = out[1]
-        o = "(Ok {| oc := %s; ofc := %s; om := %s; ofm := %s |})" % (cz(rc), clist(rfc, cz), cz(rm), clist(rfm, cz))
+        o = "(Ok {| oc := %s; ofc := %s; om := %s; ofm := %s |})" % (czs(rc), clist(rfc, czs), cz(rm), clist(rfm, cz))
     else:
         kind = {"Validation": "Validation", "ValueError": "PyValueError", "IndexError": "PyIndexError",
                 "TypeError": "PyTypeError", "KeyError": "PyKeyError", "AttributeError": "PyAttributeError"}.get(out[1], "PyAssertion")
         o = f"(Err {kind})"
-    return f"({inp}, {o})"
+    return f"({cz(D)}, {inp}, {o})" if D else f"({inp}, {o})"
 
 
 def oracle(case, out):
@@ -67,11 +213,18 @@ def oracle(case, out):
     rc, rfc, rm, rfm = out[1]
     nfr = len(felez)
     ghost = [all(z == 0 for z in f) for f in felez]
-    fz = [sum(f) for f in felez]
     if len(rfc) != nfr or len(rfm) != nfr:
         return "wrong number of fragments in the answer"
-    if not all(_is_int(x) for x in [rc, rm] + list(rfc) + list(rfm)):
-        return "non-integer value returned for integer input"
+    if not all(_is_int(x) for x in [rm] + list(rfm)):
+        return "non-integer multiplicity returned"
+    integral_in = all(_is_int(z) for f in felez for z in f) and all(x is None or _is_int(x) for x in [c] + list(fc))
+    if integral_in and not all(_is_int(x) for x in [rc] + list(rfc)):
+        return "non-integer charge returned for integer input"
+    try:
+        rcq, rfcq = Fraction(rc), [Fraction(x) for x in rfc]
+    except (TypeError, ValueError, OverflowError):
+        return "non-finite or non-numeric charge returned"
+    fz = [sum(Fraction(z) for z in f) for f in felez]
     overridden = zgf and any(ghost)
     # supplied values kept
     if not overridden:
@@ -85,13 +238,16 @@ def oracle(case, out):
                 return f"fragment charge {i} not kept"
             if fm[i] is not None and rfm[i] != fm[i]:
                 return f"fragment multiplicity {i} not kept"
-    if rc != sum(rfc):
+    if rcq != sum(rfcq):
         return "total charge is not the sum of fragment charges"
     if rm < 1 or any(x < 1 for x in rfm):
         return "non-positive multiplicity"
-    if rm - 1 > sum(fz) - rc or any(rfm[i] - 1 > fz[i] - rfc[i] for i in range(nfr)):
+    if rm - 1 > sum(fz) - rcq or any(rfm[i] - 1 > fz[i] - rfcq[i] for i in range(nfr)):
         return "not enough electrons for multiplicity"
-    if (rm % 2) == ((sum(fz) - rc) % 2) or any((rfm[i] % 2) == ((fz[i] - rfc[i]) % 2) for i in range(nfr)):
+
+    def parity_bad(mm, ne):      # electron count ne; a constraint only when it is integral
+        return ne.denominator == 1 and (int(mm) % 2) == (ne.numerator % 2)
+    if parity_bad(rm, sum(fz) - rcq) or any(parity_bad(rfm[i], fz[i] - rfcq[i]) for i in range(nfr)):
         return "wrong electron parity"
     for i in range(nfr):
         if ghost[i] and not (rfc[i] == 0 and rfm[i] == 1):
@@ -102,9 +258,74 @@ def oracle(case, out):
     return None
 
 
+def searched_space(case, limit=4000):
+    """the assignments the documented search S1-S7 ranges over (Props/C05.v C05_searched_space, [in_space] of the adjusted
+    specification), as an unordered product; None if larger than `limit`"""
+    felez, c, fc, m, fm, zgf = case
+    nfr = len(felez)
+    if len(fc) != nfr or len(fm) != nfr:
+        return None
+    ghost = [all(z == 0 for z in f) for f in felez]
+    if zgf and any(ghost):
+        c, m = None, None
+        fc = [0 if g else x for g, x in zip(ghost, fc)]
+        fm = [1 if g else x for g, x in zip(ghost, fm)]
+    known = sum(x for x in fc if x is not None)
+    cs = ([c] if c is not None else []) + [known]
+    missing = (0 if c is None else c) - known
+    fcs = [[x] if x is not None else [missing, 0] for x in fc]
+    hs = lambda l: 1 + sum(int(x) - 1 for x in l)
+    if m is not None:
+        ms = [m]
+    else:
+        ms = list(range(hs([1 if x is None else x for x in fm]), hs([2 if x is None else x for x in fm]) + 1))
+    lo = hi = 0
+    if m is not None and any(x is None for x in fm):
+        rest = list(fm)
+        rest.remove(None)
+        hi = int(m) - hs([1 if x is None else x for x in rest]) + 1
+        lo = int(m) - hs([2 if x is None else x for x in rest]) + 1
+    fms = [[x] if x is not None else sorted(set([1, 2] + list(range(max(lo, 1), hi + 1)))) for x in fm]
+    size = len(cs) * len(ms)
+    for l in fcs + fms:
+        size *= len(l)
+    if size > limit:
+        return None
+    return [(cc, list(fcc), mm, list(fmm)) for cc in dict.fromkeys(cs) for fcc in itertools.product(*fcs)
+            for mm in ms for fmm in itertools.product(*fms)]
+
+
+def oracle_refusal(case, out):
+    """a validation error is justified only if no assignment of the documented search space obeys the rules
+    (C05_error_iff_no_solution_in_searched_space); non-positive supplied multiplicities are refused outright"""
+    felez, c, fc, m, fm, zgf = case
+    if out != ("Err", "Validation"):
+        return None
+    if any(x is not None and x != 0 and x < 1 for x in [m] + list(fm)):
+        return None
+    if any(x is not None and not _is_int(x) for x in [m] + list(fm)):
+        return None
+    space = searched_space(case)
+    if space is None:
+        return None
+    for r in space:
+        if oracle(case, ("Ok", r)) is None:
+            return (f"refused with a validation error although {r} obeys every rule, keeps every supplied value and lies in the "
+                    f"documented search space S1-S7")
+    return None
+
+
 def oracle_extra(case, out, rerun):
     """fixed point, acceptance of valid full specs, default, determinism."""
     felez, c, fc, m, fm, zgf = case
+    if c is not None and m is not None and all(x is not None for x in fc) and all(x is not None for x in fm) \
+            and len(fc) == len(felez) and len(fm) == len(felez):
+        # a complete assignment: if it obeys every rule it has to be accepted as is
+        if oracle(case, ("Ok", (c, list(fc), m, list(fm)))) is None:
+            if out[0] != "Ok":
+                return f"a fully specified assignment that obeys every rule was refused ({out[1]})"
+            if not (out[1][0] == c and list(out[1][1]) == list(fc) and out[1][2] == m and list(out[1][3]) == list(fm)):
+                return "a fully specified assignment that obeys every rule was not returned as is"
     if out[0] != "Ok":
         return None
     rc, rfc, rm, rfm = out[1]
@@ -112,8 +333,8 @@ def oracle_extra(case, out, rerun):
     if again != out:
         return f"completed assignment fed back is not returned unchanged: {again}"
     if c is None and m is None and all(x is None for x in fc) and all(x is None for x in fm) and \
-            all(z >= 0 for f in felez for z in f):
-        fz = [sum(f) for f in felez]
+            all(z >= 0 and _is_int(z) for f in felez for z in f):
+        fz = [int(sum(f)) for f in felez]
         low = [1 if z % 2 == 0 else 2 for z in fz]
         if not (rc == 0 and all(x == 0 for x in rfc) and list(rfm) == low):
             return "blank specification is not neutral / lowest multiplicity per fragment"
@@ -186,12 +407,121 @@ def gen_cases(ctx):
     return [("corpus", c) for c in corpus] + cases
 
 
+def gen_frac_cases(ctx):
+    """fractional (float) charges: every value is a multiple of 1/D, D in {2,4,8}, so that the binary64 arithmetic of
+    the implementation is exact; float-typed integral multiplicities (2.0); some fractional electron counts (direct
+    entry point only).  Returns [(stream, case, D)]."""
+    rng = ctx.rng
+    out = []
+    n = 24000 if ctx.thorough else 4000
+    for _ in range(n):
+        D = rng.choice([2, 2, 4, 8])
+        nfr = rng.choice([1, 1, 2, 2, 3])
+        felez = []
+        for _f in range(nfr):
+            k = rng.choice([1, 1, 2])
+            f = [float(rng.choice([0, 0, 1, 1, 2, 3, 7, 8, 10])) for _a in range(k)]
+            if rng.random() < 0.12:
+                f[0] = rng.randint(0, 4 * D) / D
+            felez.append(f)
+
+        def chg():
+            r = rng.random()
+            if r < 0.45:
+                return rng.randint(-3 * D, 3 * D) / D
+            if r < 0.6:
+                return float(rng.randint(-3, 3))
+            return rng.randint(-2, 2)
+
+        def mult():
+            v = rng.choice([1, 1, 2, 2, 3, 4, 5, 0, -1])
+            return float(v) if rng.random() < 0.4 else v
+        pc = rng.choice([0.25, 0.5, 0.8])
+        c = chg() if rng.random() < pc else None
+        m = mult() if rng.random() < pc else None
+        fc = [chg() if rng.random() < pc else None for _f in range(nfr)]
+        fm = [mult() if rng.random() < pc else None for _f in range(nfr)]
+        out.append(("frac", (felez, c, fc, m, fm, rng.random() < 0.25), D))
+    corpus = [
+        ([[2.0]], None, [0.5], None, [None], False),          # He(+1/2): singlet, no parity constraint
+        ([[1.0]], 0.5, [None], None, [None], False),
+        ([[1.0], [1.0]], 0.5, [None, None], None, [None, None], False),
+        ([[7.0], [7.0]], 1.0, [0.5, 0.5], 2.0, [None, None], False),
+        ([[0.5]], None, [None], None, [None], False),         # fractional electron count
+        ([[0.0], [3.0]], 0.5, [0.25, None], None, [None, 2.0], True),
+        ([[2.0]], None, [None], 3.0, [None], False),          # float-typed multiplicity
+    ]
+    # complete assignments that obey every rule (by rejection sampling against the oracle): acceptance stream
+    want, tries = (6000 if ctx.thorough else 1200), 0
+    full = []
+    while len(full) < want and tries < 60 * want:
+        tries += 1
+        D = rng.choice([1, 1, 2, 4, 8])
+        nfr = rng.choice([1, 2, 2, 3])
+        felez = [[float(rng.choice([0, 1, 2, 3, 7, 8, 10])) for _a in range(rng.choice([1, 1, 2]))] for _f in range(nfr)]
+        fz = [sum(f) for f in felez]
+        fcs, fms = [], []
+        for z in fz:
+            if z == 0:
+                fcs.append(rng.choice([0.0, 0]))
+                fms.append(1)
+                continue
+            cc = rng.randint(-2 * D, min(2 * D, int(z * D))) / D
+            ne = Fraction(z) - Fraction(cc)
+            top = int(ne) + 1
+            if top < 1:
+                break
+            if ne.denominator == 1:
+                ok_m = [mm for mm in range(1, min(top, 6) + 1) if mm % 2 != int(ne) % 2]
+            else:
+                ok_m = list(range(1, min(top, 6) + 1))
+            if not ok_m:
+                break
+            fcs.append(cc)
+            mm = rng.choice(ok_m)
+            fms.append(float(mm) if rng.random() < 0.2 else mm)
+        if len(fcs) != nfr:
+            continue
+        ctot = sum(fcs)
+        hs = 1 + sum(int(x) - 1 for x in fms)
+        net = Fraction(sum(fz)) - Fraction(ctot)
+        ms = [mm for mm in range(1, hs + 1) if mm - 1 <= net and (net.denominator != 1 or mm % 2 != int(net) % 2)]
+        mtot = hs if (rng.random() < 0.6 or not ms) else rng.choice(ms)
+        case = (felez, ctot, fcs, mtot, fms, rng.random() < 0.2)
+        if oracle(case, ("Ok", (ctot, fcs, mtot, fms))) is None:
+            full.append(("fullspec", case, 8))
+    return [("frac-corpus", cs, 8) for cs in corpus] + out + full
+
+
+def _classify(case):
+    """which branches of the model the case drives (input-side classification, mirrored from Model/ChgMult.v)"""
+    felez, c, fc, m, fm, zgf = case
+    tags = []
+    if any(x is not None and x != 0 and x < 1 for x in [m] + list(fm)):
+        return ["precheck_bad_mult"]
+    ghost = [all(z == 0 for z in f) for f in felez]
+    over = zgf and any(ghost)
+    tags.append("adjust_override" if over else "adjust_id")
+    mm = None if over else m
+    ffm = [1 if (over and g) else x for g, x in zip(ghost, fm)]
+    tags.append("r8_active" if (mm is None or any(x is None for x in ffm)) else "r8_off")
+    if mm is not None and any(x is None for x in ffm):
+        tags.append("missing_mult_range")
+    if mm is None:
+        tags.append("exact_m_range")
+    if any(ghost):
+        tags.append("ghost_rule")
+    if any(x == 0 for x in [m] + list(fm) if x is not None):
+        tags.append("zero_mult_passes_precheck")
+    return tags
+
+
 def correspond(ctx):
     corr = Corr()
     corr.rule = ("exhaustive 1-fragment scope (electrons x c x fc x m x fm x zgf), exhaustive-or-sampled 2-fragment scope, "
-                 "sampled 3-4 fragment systems incl. ghosts and non-positive multiplicities; a case is non-trivial if the "
-                 "implementation returned an assignment (not an error); distinct = distinct inputs")
-    cases = gen_cases(ctx)
+                 "sampled 3-4 fragment systems incl. ghosts and non-positive multiplicities, sampled fractional-charge systems; "
+                 "a case is non-trivial if the implementation returned an assignment (not an error); distinct = distinct inputs")
+    cases = [(s, c, None) for s, c in gen_cases(ctx)] + gen_frac_cases(ctx)
     memo = {}
 
     def run(case):
@@ -200,23 +530,86 @@ def correspond(ctx):
             memo[key] = impl_call(*case)
         return memo[key]
 
-    terms, meta = [], []
-    for stream, case in cases:
+    terms, meta, termsD, metaD = [], [], [], []
+    nref, ref_quota = 0, (10 ** 9 if ctx.thorough else 12000)
+    for stream, case, D in cases:
         out = run(case)
         corr.count(stream)
         corr.hit("impl_" + (out[0] if out[0] == "Ok" else "Err_" + out[1]))
+        for t in _classify(case):
+            corr.hit("model_" + t)
         if out[0] == "Ok":
             corr.nontriv(case)
-            if stream != "corpus" and ctx.rng.random() < 0.0005:
+            if not stream.endswith("corpus") and ctx.rng.random() < 0.0005:
                 corr.sample({"input": case, "output": out})
         bad = oracle(case, out)
         if bad is None:
             bad = oracle_extra(case, out, run)
+        if bad is None and out[0] == "Err" and nref < ref_quota:
+            nref += 1
+            bad = oracle_refusal(case, out)
+            corr.count("refusal-justified")
         if bad:
             corr.failures.append({"stream": "oracle", "case": {"input": case}, "what": bad, "observed": out})
-        terms.append(case_term(case, out))
-        meta.append((stream, case, out))
+        try:
+            if D is None:
+                terms.append(case_term(case, out))
+                meta.append((stream, case, out))
+            else:
+                termsD.append(case_term(case, out, D))
+                metaD.append((stream, case, out, D))
+        except (ValueError, TypeError, OverflowError) as e:     # an answer that is not a multiple of 1/D, nan, ...
+            corr.failures.append({"stream": "oracle", "case": {"input": case}, "what": f"answer not representable: {e}",
+                                  "observed": out})
     corr.sample({"input": cases[0][1], "output": run(cases[0][1])})
+
+    # the other public entry points: from_arrays(...) and Molecule(...) on the same specification (atoms with the same
+    # electron counts; ghost atoms keep an element but are not real) must complete it the same way
+    ep_diffs = []
+    pool = [(k, cs) for k, (_s, cs, _D) in enumerate(cases)]
+    ctx.rng.shuffle(pool)
+    quota = {"from_arrays": 40000 if ctx.thorough else 9000, "Molecule": 12000 if ctx.thorough else 3000}
+    head = [(k, cs) for k, (s_, cs, _D) in enumerate(cases) if s_.endswith("corpus")]
+    for entry, fn in (("from_arrays", impl_from_arrays), ("Molecule", impl_molecule)):
+        done = 0
+        for k, case in head + pool:
+            if done >= quota[entry]:
+                break
+            if not entry_ok(entry, case):
+                continue
+            if entry == "Molecule" and cases[k][2] is not None:
+                continue        # Molecule rounds charges to CHARGE_NOISE decimals; fractional charges go through from_arrays only
+            done += 1
+            out = fn(*case)
+            corr.count("entry-" + entry)
+            ref = memo[repr(case)]
+            bad = oracle(case, out)
+            if bad is None and out != ref:
+                bad = f"{entry} completes the specification differently from validate_and_fill_chgmult: {ref}"
+                ep_diffs.append(k)
+            if bad:
+                corr.failures.append({"stream": "oracle-" + entry, "case": {"input": case, "entry": entry}, "what": bad,
+                                      "observed": out})
+    # answers handed out earlier (and argument objects handed in) are modified in place, then the identical query is
+    # issued again with fresh equal arguments: a memo that shares its lists with the caller shows up here
+    npro = 6000 if ctx.thorough else 1500
+    for entry in ("validate_and_fill_chgmult", "from_arrays"):
+        done = 0
+        for k, case in head + pool:
+            if done >= npro:
+                break
+            if entry == "from_arrays" and not entry_ok(entry, case):
+                continue
+            if memo[repr(case)][0] != "Ok" and done % 8:
+                continue
+            done += 1
+            outs = alias_probe(entry, case)
+            corr.count("alias-" + entry)
+            if any(o != memo[repr(case)] for o in outs):
+                corr.failures.append({"stream": "alias-" + entry, "case": {"input": case, "entry": entry, "probe": "alias"},
+                                      "what": "the same query gave a different answer after the caller modified an earlier "
+                                              "answer / the argument lists in place (or differs from the first answer of the run)",
+                                      "observed": outs})
     # determinism / history independence: replay a shuffled sample after everything else ran
     idx = list(range(len(cases)))
     ctx.rng.shuffle(idx)
@@ -227,17 +620,45 @@ def correspond(ctx):
             corr.failures.append({"stream": "determinism", "case": {"input": cases[k][1]},
                                   "what": "same input gave a different answer later in the run",
                                   "observed": [memo[repr(cases[k][1])], again]})
-    ctx.log(f"{len(terms)} cases through the implementation; evaluating the model")
-    bad, errors = coqrun.eval_bad_indices("C05", ["QV.Common.Outcome", "QV.Model.ChgMult"], "", "check_case", terms,
-                                          shard=1500, ty="cm_in * outcome cm_out")
+    ctx.log(f"{len(terms)} integer + {len(termsD)} fractional cases through the implementation; evaluating the model")
+    REQ = ["QV.Common.Outcome", "QV.Model.ChgMult", "QV.Model.ChgMultD"]
+    bad, errors = coqrun.eval_bad_indices("C05", REQ, "", "check_case", terms, shard=1500, ty="cm_in * outcome cm_out")
     corr.errors.extend(f"shard {k}: {e}" for k, e in errors)
     for b in bad[:8]:
         stream, case, out = meta[b]
-        got, _ = coqrun.eval_terms("C05", ["QV.Common.Outcome", "QV.Model.ChgMult"], "",
-                                   [f"fill (fst {terms[b]})"])
+        got, _ = coqrun.eval_terms("C05", REQ, "", [f"fill (fst {terms[b]})"])
         corr.disagreements.append({"stream": stream, "case": {"input": case}, "impl": out, "model": got})
+    if termsD:
+        bad, errors = coqrun.eval_bad_indices("C05D", REQ, "", "check_caseD", termsD, shard=1500,
+                                              ty="Z * cm_in * outcome cm_out")
+        corr.errors.extend(f"fractional shard {k}: {e}" for k, e in errors)
+        for b in bad[:8]:
+            stream, case, out, D = metaD[b]
+            got, _ = coqrun.eval_terms("C05D", REQ, "", [f"fillD (fst (fst {termsD[b]})) (snd (fst {termsD[b]}))"])
+            corr.disagreements.append({"stream": stream, "case": {"input": case, "D": D}, "impl": out,
+                                       "model": f"(charges and electron counts in units of 1/{D}) {got}"})
     corr.exhaustive = False
     return corr
+
+
+def _judge(case_d):
+    case = tuple(case_d["input"])
+    entry = case_d.get("entry")
+    if case_d.get("probe") == "alias":
+        outs = alias_probe(entry, case)
+        bad = None
+        if any(o != outs[0] for o in outs):
+            bad = "the same query gave a different answer after the caller modified an earlier answer / the argument lists in place"
+        else:
+            bad = oracle(case, outs[0])
+        return outs, bad
+    out = run_entry(entry, case)
+    bad = oracle(case, out) or oracle_extra(case, out, lambda c: run_entry(entry, c)) or oracle_refusal(case, out)
+    if not bad and entry:
+        ref = impl_call(*case)
+        if ref != out:
+            bad = f"{entry} completes the specification differently from validate_and_fill_chgmult: {ref}"
+    return out, bad
 
 
 def search(ctx, corr, reasons):
@@ -245,35 +666,50 @@ def search(ctx, corr, reasons):
     already judged by the oracle inside correspond)."""
     found = []
     for d in corr.disagreements:
-        case = tuple(d["case"]["input"])
-        out = impl_call(*case)
-        bad = oracle(case, out) or oracle_extra(case, out, lambda c: impl_call(*c))
+        out, bad = _judge(d["case"])
         if bad:
-            found.append({"stream": "search", "case": {"input": case}, "what": bad, "observed": out})
+            found.append({"stream": "search", "case": d["case"], "what": bad, "observed": out})
     return found
 
 
 def replay(ctx, rp):
-    case = rp["case"]["input"]
-    felez, c, fc, m, fm, zgf = case
-    out = impl_call(felez, c, fc, m, fm, zgf)
-    bad = oracle(case, out) or oracle_extra(case, out, lambda cc: impl_call(*cc))
-    return {"input": case, "implementation": out, "oracle": bad, "fails": bool(bad)}
+    out, bad = _judge(rp["case"])
+    return {"input": rp["case"], "implementation": out, "oracle": bad, "fails": bool(bad)}
 
 
 KNOWN = {}
 
-TECHNIQUE = "Coq proof over a hand-written Gallina model (induction over fragment lists) + differential correspondence against the implementation"
+TECHNIQUE = ("Coq proofs over hand-written Gallina models (induction over fragment lists; integer and rational charges) + fail-closed "
+             "translation of the rule helper functions with a proved generated = model lemma + differential correspondence against "
+             "the implementation at every public entry point")
 DESIGN_REF = "DESIGN.md §6 C05"
 LEVEL_TEXT = (
-    "Machine-checked (Coq 8.16.1) theorems about Model/ChgMult.v, for any number of fragments and any partial "
-    "specification: C05_sound (every rule of the property holds of whatever is returned, incl. supplied values kept, "
-    "c = sum fc, positive multiplicities, electron sufficiency and parity total and per fragment, ghost fragments (0,1), "
-    "high-spin unless fully specified), C05_fixed_point, C05_accepts_valid_full_spec, C05_default_neutral_lowspin, "
-    "C05_fails_closed. The model is tied to chgmult.py on every run by exact differential execution over the exhaustive "
-    "1-fragment scope, an exhaustive/sampled 2-fragment scope and sampled 3-4 fragment systems, plus a determinism "
-    "(history) stream and the property oracle evaluated directly on the implementation's answers.")
+    "Machine-checked (Coq 8.16.1, closed under the global context) theorems about Model/ChgMult.v ([fill], integer data) and "
+    "Model/ChgMultD.v ([fillD D], charges and electron counts as rationals x/D = the float path; C05_integer_case_of_rational: "
+    "fillD 1 = fill), for any number of fragments and any partial specification: C05_sound / C05_sound_rational (every rule of the "
+    "property holds of whatever is returned: supplied values kept, c = sum fc, positive multiplicities, electron sufficiency and "
+    "parity total and per fragment -- for fractional electron counts parity is no constraint, C05_parity_rule_rational --, ghost "
+    "fragments (0,1), high-spin unless fully specified), C05_inputs_kept_verbatim + C05_ghost_override_keeps_real_fragments (what "
+    "zero_ghost_fragments changes), C05_fixed_point(_rational), C05_accepts_valid_full_spec, C05_accepts_spec(_rational) (acceptance "
+    "as the exact converse of soundness), C05_default_neutral_lowspin, C05_default_zgf_partial, C05_fails_closed(_rational), "
+    "C05_error_iff_no_solution_in_searched_space / C05_error_iff_rational + C05_searched_space (a validation error is raised exactly "
+    "when a non-positive multiplicity was supplied or no assignment of the searched space, characterised as a proposition, obeys the "
+    "rules), C05_complete_unrestricted_refuted (the unrestricted reading is false: documented S1-S7 search), "
+    "C05_first_match(_rational) (the first candidate in product order that satisfies the specification is returned), "
+    "C05_generated_rules_are_the_model (the helper functions translated from chgmult.py on every run equal the model's). "
+    "The models are tied to chgmult.py on every run by exact differential execution over the exhaustive 1-fragment scope, an "
+    "exhaustive/sampled 2-fragment scope, sampled 3-4 fragment systems, sampled fractional-charge systems (dyadic values, "
+    "float-typed multiplicities, fractional electron counts), re-split/determinism (history) streams, the same specifications "
+    "through from_arrays(...) and Molecule(...), and the property oracle (exact rationals) on every answer of every entry point.")
 LEVEL_NOTE = (
-    "Trusted: Coq kernel + vm_compute; the hand-written model (integer charges/multiplicities only; fractional "
-    "charges are outside the model); numpy split/sum, itertools.product order and CPython int arithmetic are modelled, "
-    "not verified; the correspondence harness harness/props/c05.py. No axioms (all theorems closed under the global context).")
+    "Clause map: kept values / c = sum fc / positive multiplicity, sufficiency, parity / ghost (0,1) / high-spin = C05_sound "
+    "(+ _rational, + the two adjust theorems); fed back unchanged = C05_fixed_point; valid full spec accepted = "
+    "C05_accepts_valid_full_spec, C05_accepts_spec; blank default = C05_default_neutral_lowspin (zgf=False), C05_default_zgf_partial "
+    "(zgf=True without ghost fragment; with a ghost fragment only correspondence/oracle); error instead of a violating answer = "
+    "C05_fails_closed + C05_sound, and exactly when = C05_error_iff_no_solution_in_searched_space; same input same answer = "
+    "definitional for the model, determinism/re-split/entry-point streams for the implementation. Integrality of multiplicities is by "
+    "typing; non-integral multiplicities are outside the model (observed: the code raises TypeError from range() when a non-integral "
+    "total multiplicity meets an unspecified fragment multiplicity -- outside the property's quantifier, reported, not alarmed). "
+    "Trusted: Coq kernel + vm_compute; the hand-written candidate construction S1-S7, rule list and search (the five helper functions "
+    "are generated and proved equal); numpy split/sum, itertools.product order, CPython int arithmetic and exact binary64 arithmetic "
+    "on dyadic values are modelled, not verified; the correspondence harness harness/props/c05.py. No axioms.")
